@@ -31,7 +31,10 @@ CLAIMED = {
               "scheduler switching threads between reservation / write / publication / wake decision and consume / keep-running check / waker registration; the quiescent end state of every execution is judged by TLC "
               "(Trace_AbsUni / Trace_AbsMulti: a parked, not cancelled stream with a deliverable accepted event and no runnable thread is a lost wake-up).",
               "7 (C04), 8 (D1)", "TLC trace validation of real executions (deterministic scheduler, manual wakers) against the L1 TLA+ specs; TLA+ L2 specs UniChan / MultiChan checked by TLC with their transition covers replayed into the real channels; known findings recorded for the Uni and Multi atomic kinds"),
-    "C05": _c("Instrumented payloads (per-value destruction counter, alive marker) and a wrapper allocator that notices any use after its own Drop, on the Uni movable + zero-copy and the Multi arc / ogre_arc channels: "
+    "C05": _c("MultiChan with Kind = ogre (TLA+, implementation shaped): OgreArc::new from the allocator's free list, references += running_streams_count before the fan-out, one raw copy per listed listener, every handle drop a fetch_sub "
+              "(the one that finds 1 destroys the payload and returns the slot); TLC checks InvNoUseAfterFree / InvRefsExact / InvPoolBounds on every reachable state and every transition of the small state graph is replayed into the real "
+              "OgreArc atomic Multi channel, validated scheduling point by scheduling point (Trace_MultiChan) and judged by the L1 destruction verdicts; a send overlapping the removal of a listener whose id is reused / never reused (safety verdicts only). "
+              "Instrumented payloads (per-value destruction counter, alive marker) and a wrapper allocator that notices any use after its own Drop, on the Uni movable + zero-copy and the Multi arc / ogre_arc channels: "
               "handles held and released on other threads, teardown with events still buffered, refill after everything was consumed and released; every history judged by TLC (destroyed at most once, exactly once as soon as "
               "delivered and released, nothing touched after free, BUFFER_SIZE events accepted again).",
               "7 (C05), 8 (D2)", "TLC trace validation of real executions (deterministic scheduler, instrumented payload / allocator) against the L1 TLA+ specs"),
@@ -50,10 +53,11 @@ CLAIMED = {
               "streams dropped and ids reused, on all Uni and Multi channel kinds with 1..3 streams, from " + DET + "; TLC judges every history (a cancelled stream yields only what is buffered and ends; none stays parked; "
               "running count exact). Ending a single stream (flush_and_cancel_executor) is covered with the tokio drivers of C12.",
               "7 (C07)", "TLA+ L2 specs UniChan / MultiChan checked by TLC, transition covers replayed into the real channels; TLC trace validation of real executions (deterministic scheduler) against the L2 and L1 TLA+ specs"),
-    "C08": _c("Random histories of reserve / fill / send-reserved / cancel (reverse order) / plain send / receive ending in a capacity probe, on the three Uni channels that implement the API, from every sequence origin in a window "
+    "C08": _c("UniChan (TLA+, implementation shaped) contains reserve_slot / try_send_reserved (with its wake rule) / try_cancel_slot_reserve over RingAtomic's reservation actions: every transition of its state graph is replayed into the real "
+              "movable atomic Uni channel against a driven stream, validated against UniChan (Trace_UniChan) and judged by the L1 verdicts. Random histories of reserve / fill / send-reserved / cancel (reverse order) / plain send / receive ending in a capacity probe, on the three Uni channels that implement the API, from every sequence origin in a window "
               "around 2^32, plus a reserving producer against a concurrently polling consumer; the reservation actions of RingAtomic are model-checked from every origin (C15); histories validated by TLC against Trace_AbsUni "
               "(sent slots deliver what was written, cancelled vanish, exactly BUFFER_SIZE accepted afterwards, no panic).",
-              "7 (C08), 8 (D4)", "TLA+ L2 spec (reservation actions) checked by TLC from every counter origin; TLC trace validation of real executions against the L1 TLA+ spec Trace_AbsUni"),
+              "7 (C08), 8 (D4)", "TLA+ L2 specs (RingAtomic reservation actions from every counter origin; UniChan reservation API) checked by TLC, transition covers replayed into the real ring / channel; TLC trace validation of real executions against the L1 TLA+ spec Trace_AbsUni"),
     "C09": _c("The real mmap-log Multi channel: two publishers racing with late subscriptions (new only / joined / old+new split) and listeners consuming at their own pace, from " + DET +
               "; TLC validates every history against Trace_AbsMulti: full replay for joined listeners, the same total order for all listeners, each producer's order, the split pair partitions the history, same address for one event.",
               "7 (C09)", "TLC trace validation of real executions (deterministic scheduler) against the L1 TLA+ spec Trace_AbsMulti"),
@@ -82,7 +86,8 @@ CLAIMED = {
     "C15": _c("The L1 oracles contain no sequence counters, so a history accepted from every origin is origin independence. TLC checks RingAtomic / RingFullSync / the pool free list from *every* origin of the counter modulus W "
               "(wrap inside every run) with and without overflow checks; the real rings, pool allocators and reservation API run the same single-thread histories (send, receive, reserve, send-reserved, cancel, length, teardown "
               "with leftovers) from origin 0 and from each origin in a window around 2^32 (verif::set_sequence_origin), in a debug (overflow checks) and a nochecks build; every run is validated by TLC against the trace specs, "
-              "results are compared operation by operation with origin 0, panics are an L1 verdict; plus concurrent schedules started right below the wrap.",
+              "results are compared operation by operation with origin 0, panics are an L1 verdict; plus concurrent schedules started right below the wrap; plus the channels themselves (whose streams manager owns a second wrapping "
+              "structure, the queue of vacant stream ids): sequential create / send / poll / drop / running-count histories on Uni and Multi channels from origin 0 and from the origins around 2^32, judged by Trace_AbsUni / Trace_AbsMulti and compared with origin 0.",
               "7 (C15), 4, 5", "TLA+ L2 specs from every counter origin checked by TLC; trace validation + origin-0 differential of real executions started around the 32-bit wrap (debug and nochecks builds)"),
     "C16": _c("Fill / rejected sends through every entry point / make room / retry / drain cycles and 3 producers colliding at the full boundary against a slow consumer, on all five Uni channels and the two ogre_arc Multi "
               "channels; TLC validates each history against Trace_AbsUni / Trace_AbsMulti: a send is rejected only if all slots are taken at some instant (LinQueue capacity rule), the rejected setter is un-invoked, "
